@@ -6,10 +6,13 @@ import (
 	"encoding/json"
 	"flag"
 	"fmt"
+	"github.com/caddyserver/caddy/v2/caddyconfig/caddyfile"
 	"io"
 	"net"
 	"os"
 	"runtime"
+	"strconv"
+	"strings"
 	"sync"
 	"sync/atomic"
 	"time"
@@ -29,6 +32,7 @@ type socksCase struct {
 			U string `json:"u"`
 			P string `json:"p"`
 		} `json:"creds"`
+		Form string `json:"form"` // "json": the handler's fields are set as the JSON loader does; "caddyfile": through UnmarshalCaddyfile
 	} `json:"cfg"`
 	Sc struct {
 		Methods []int  `json:"methods"`
@@ -88,6 +92,30 @@ func runSocks(c *socksCase, i int, tgt *socksTarget) (*socksTrace, error) {
 		h.Credentials = map[string]string{}
 		for _, cr := range c.Cfg.Creds {
 			h.Credentials[cr.U] = cr.P
+		}
+	}
+	if c.Cfg.Form == "caddyfile" {
+		// the same configuration written in the documented Caddyfile syntax and parsed by the handler itself
+		var sb strings.Builder
+		sb.WriteString("socks5 {\n")
+		if len(c.Cfg.Cmds) > 0 {
+			sb.WriteString("\tcommands")
+			for _, x := range c.Cfg.Cmds {
+				sb.WriteString(" " + strconv.Quote(x))
+			}
+			sb.WriteString("\n")
+		}
+		if len(c.Cfg.Creds) > 0 {
+			sb.WriteString("\tcredentials")
+			for _, cr := range c.Cfg.Creds {
+				sb.WriteString(" " + strconv.Quote(cr.U) + " " + strconv.Quote(cr.P))
+			}
+			sb.WriteString("\n")
+		}
+		sb.WriteString("}\n")
+		h = &l4socks.Socks5Handler{}
+		if err := h.UnmarshalCaddyfile(caddyfile.NewTestDispenser(sb.String())); err != nil {
+			return nil, fmt.Errorf("caddyfile %q: %v", sb.String(), err)
 		}
 	}
 	ctx, cancel := caddy.NewContext(caddy.Context{Context: context.Background()})
